@@ -617,8 +617,14 @@ def rule_lookup1(ctx: Ctx) -> RuleResult:
             if p.exit == "raise":
                 continue
             rr.instances += 1
-            called = any(isinstance(c, ast.Call) and isinstance(c.func, ast.Name) and c.func.id == loader and c.args
-                         and norm(c.args[0]) == pv for s in p.stmts() for c in ast.walk(s))
+            def _loads(c):
+                if not isinstance(c, ast.Call):
+                    return False
+                args = [norm(a) for a in c.args] + [norm(k.value) for k in c.keywords]
+                if pv not in args:
+                    return False
+                return (isinstance(c.func, ast.Name) and c.func.id == loader) or loader in args
+            called = any(_loads(c) for s in p.stmts() for c in ast.walk(s))
             rr.ob(sm.relpath, sm.qualname, p.describe()[:100] or f"for {pv} in process_path(...)",
                   f"every matched path is opened and parsed by the selected loader (`{loader}({pv})`), so an unreadable or "
                   f"malformed file fails the run wherever it stands", DISCHARGED if called else VIOLATED,
